@@ -172,5 +172,17 @@ example : extractAll [⟨"X", "a Cmpt Exec", 0, some 2, 9, 10, some 1000⟩, ⟨
     .ok [⟨0, "a Cmpt Exec", 9, 9, 0⟩, ⟨0, "a Cmpt Exec", 10, 10, 1000⟩, ⟨1, "b DmaI", 4, 4, 0⟩,
          ⟨1, "b DmaI", 5, 5, 50⟩, ⟨0, "d Cmpt Exec", 13, 13, 1500⟩] := by decide +kernel
 
+/-- **The plausibility bound is exclusive**: a value of exactly 100 W is reported as it is, only values ABOVE
+100 W are reported as 0 (`if new_val > 100`), and everything up to the bound passes unchanged. -/
+theorem clamp_spec (w : Num) : clamp w = if w ≤ 100 then w else 0 := by
+  unfold clamp
+  by_cases h : (100 : Num) < w
+  · have : ¬ w ≤ 100 := by grind
+    simp [h, this]
+  · have : w ≤ 100 := by grind
+    simp [h, this]
+
+theorem clamp_at_bound : clamp 100 = 100 := by decide +kernel
+
 end C10
 end AiuVerif
